@@ -36,7 +36,9 @@ def load_regress_cases():
         r = json.load(open(p))
         pl = planmod.build_plan(r["spec"], random.Random(1))
         cases.append({"id": "rg-" + r["name"], "mode": "inclass" if r.get("inclass") else "wild", "spec": r["spec"], "plan": pl,
-                      "boot_fail_runs": [], "shape": gen.shape_signature(r["spec"]) if r["spec"]["types"] else "rg-" + r["name"], "regress": True})
+                      "boot_fail_runs": [], "shape": gen.shape_signature(r["spec"]) if r["spec"]["types"] else "rg-" + r["name"], "regress": True,
+                      # witnesses of compile-time findings (an accepted rule breaker) are not driven at run time
+                      "stop_after_pavexc": bool(r.get("stop_after_pavexc"))})
     return cases
 
 
